@@ -91,6 +91,8 @@ def run(ctx):
         body = nt.random_track(r, r.choice([300, 700]), res=res_big, phrases=5, events=3, flags_p=0.4)
         cases.append({"id": f"C04-big{k}", "res": res_big, "body": body, "tempo": [[0, 120000], [5000, 90000], [20000, 200000]]})
     _notes._judge(ctx, cases, "C04", "seeded long sections", max_skip_ratio=0.0)
+    # ticks around the constants a platform knows (2^31, 2^32, 2^53, 2^63, 2^64)
+    _notes._judge(ctx, _notes.platform_constant_tracks("C04", r), "C04", "ticks around platform constants", max_skip_ratio=0.0)
     # several instrument sections in one chart, each judged as if it were alone
     cases = _notes.seeded_multi(ctx, "C04", ctx.pick(150, 2500), flags_p=0.4)
     _notes._judge_multi(ctx, cases, "C04", "seeded charts with several sections", max_skip_ratio=0.02)
